@@ -49,6 +49,7 @@ func init() {
 		"vtrace":         hVtrace,
 		"vtraceCount":    hVtraceCount,
 		"vmapOrder":      hVmapOrder,
+		"vselectOrder":   hVselectOrder,
 		"vsameObject":    hVsameObject,
 	}
 }
@@ -257,6 +258,12 @@ func hVtraceCount(c *Ctx, st *State, fn *ssa.Function, a []Value) (*State, Value
 		}
 	}
 	return st, c.tt.Const(64, uint64(n))
+}
+
+// vselectOrder(k): which ready case a select takes when several are ready: 0 the first in source order, 1 the last
+func hVselectOrder(c *Ctx, st *State, fn *ssa.Function, a []Value) (*State, Value) {
+	c.selectOrder = c.intArg(a[0])
+	return st, nil
 }
 
 func hVmapOrder(c *Ctx, st *State, fn *ssa.Function, a []Value) (*State, Value) {
